@@ -3,6 +3,7 @@ module verifharness
 go 1.25.11
 
 require (
+	github.com/btcsuite/btcwallet/walletdb v1.6.0
 	github.com/lightninglabs/neutrino v0.0.0
 	github.com/lightninglabs/neutrino/cache v1.1.4
 )
@@ -12,8 +13,10 @@ require (
 	github.com/lightningnetwork/lnd/fn/v2 v2.0.8 // indirect
 	github.com/pmezard/go-difflib v1.0.0 // indirect
 	github.com/stretchr/testify v1.10.0 // indirect
+	go.etcd.io/bbolt v1.3.11 // indirect
 	golang.org/x/exp v0.0.0-20250811191247-51f88131bc50 // indirect
 	golang.org/x/sync v0.16.0 // indirect
+	golang.org/x/sys v0.35.0 // indirect
 	gopkg.in/yaml.v3 v3.0.1 // indirect
 )
 
